@@ -13,7 +13,7 @@ ID = "C18"
 ZONES = ("America/New_York", "Asia/Kolkata", "Australia/Lord_Howe", "Pacific/Chatham")
 RULE = ("E-INPUT x configurations: calendar operations (7 units x floor/ceil/round/offset/range) on every day of 2020-2021 x 2 "
         "times of day and on every minute 00:00-04:59 of the five 2021 DST transition dates of the zones, on every month boundary 1900-2100 (day/week/month/year units); TimeScale mapping / "
-        "invert for instant pairs, ticks(m) and nice(m) over start instants x span ladder x counts, and whole SVG/TikZ exports "
+        "invert for instant pairs, ticks(m) and nice(m) over start instants x span ladder x counts, date-typed timeline items at every month boundary 1900-2100, and whole SVG/TikZ exports "
         "of datetime datasets - each executed under UTC and under America/New_York, Asia/Kolkata, Australia/Lord_Howe and "
         "Pacific/Chatham (process TZ switched with tzset), outputs compared byte for byte with the UTC run. "
         "Non-trivial: cases whose instants fall inside a DST gap/overlap of some zone, or straddle a transition.")
@@ -22,6 +22,7 @@ ASSUMPTIONS = ["switching TZ with time.tzset() inside a worker is equivalent to 
 REQUIRED_COUNTERS = ("cases", "zone_runs", "dst_window_cases")
 DST_DAYS = (datetime(2021, 3, 14), datetime(2021, 11, 7), datetime(2021, 4, 4), datetime(2021, 10, 3), datetime(2021, 9, 26))
 UNITS = cal.UNITS
+KINDS = ["cal", "map", "ticks", "nice", "dateitems", "export"]
 
 
 def bounds(tier, seed):
@@ -76,6 +77,11 @@ def run_case(case):
                 en = st + timedelta(milliseconds=sp)
                 s = TimeScale().domain([en, st]) if m % 2 else TimeScale().domain([st, en])
                 return repr(s.nice(m).domain())
+            if kind == "dateitems":
+                _, d0 = case
+                from labella.timeline import TimelineSVG
+                tl = TimelineSVG([{"time": d0, "width": 30}, {"time": d0 + _dt.timedelta(days=45), "width": 30}], {"direction": "up"})
+                return repr(([it.time for it in tl.items], tl.options["scale"].domain()))
             if kind == "export":
                 _, data, backend, optkind = case
                 if optkind == "default":
@@ -105,7 +111,12 @@ def all_cases(tier, seed):
             if t0 != t1:
                 for q in (t0, t0 + (t1 - t0) / 3, t1 + (t1 - t0) / 7):
                     cases.append(("dst" if 2021 in (t0.year, t1.year) else "day", ("map", t0, t1, q)))
+    for y in range(1900, 2101):
+        for mo in range(1, 13):
+            cases.append(("day", ("dateitems", _dt.date(y, mo, 1))))
     starts = [d + tod for d in DST_DAYS for tod in (timedelta(0), timedelta(hours=1, minutes=30), timedelta(hours=2, minutes=45))]
+    # second-resolution domains in years when some zones still had UTC offsets with a seconds part (India until 1905)
+    starts += [datetime(1901, 5, 5, 22, 13, 7), datetime(1905, 12, 31, 23, 59, 41), datetime(1900, 1, 1, 0, 0, 3)]
     starts += [d for d in timegrid.month_end_days((2021,)) if d.day in (1, 28, 31)] + [timegrid.seeded_start(seed)]
     spans = [s for i, s in enumerate(timegrid.SPANS_MS) if i % 2 == 0 or 36e5 <= s <= 3 * timegrid.D]
     for st in starts:
@@ -157,13 +168,13 @@ def run_shard(shard):
                 if got == "HANG" and ref != "HANG":
                     acc.violation({"case": list(c), "zone": zone}, "HANG:%s" % c[0],
                                   "%s %r under TZ=%s did not return (it does under UTC)" % (c[0], _short(c), zone),
-                                  order=(["cal", "map", "ticks", "nice", "export"].index(c[0]), i, ZONES.index(zone)))
+                                  order=(KINDS.index(c[0]), i, ZONES.index(zone)))
                 elif got != ref:
                     k = next((j for j, (a, b) in enumerate(zip(got, ref)) if a != b), min(len(got), len(ref)))
                     acc.violation({"case": list(c), "zone": zone}, "C18:%s-differs" % c[0],
                                   "%s %r under TZ=%s gives ...%s..., under UTC ...%s..."
                                   % (c[0], _short(c), zone, got[max(0, k - 30):k + 60], ref[max(0, k - 30):k + 60]),
-                                  order=(["cal", "map", "ticks", "nice", "export"].index(c[0]), i, ZONES.index(zone)))
+                                  order=(KINDS.index(c[0]), i, ZONES.index(zone)))
     finally:
         core.set_tz("UTC")
     acc.sample({"case": list(mine[0][2]), "zone": ZONES[0]})
